@@ -139,7 +139,7 @@ def run(tier, work):
     stats = dict(states=0, transitions=0)
     # the model-level frame conditions
     checks = [("MCCore", "Core.cfg", dict(MAXSTMTS=3, DEV_OU="FALSE", EMIT="FALSE", RICH="FALSE", PROPS="FrameCondition")),
-              ("MCNarrow", "Narrow.cfg", dict(MAXDEPTH=2, MAXIFS=2, ELSIF="FALSE", UNLESS="TRUE", STMT="TRUE", RICH="FALSE", EMIT="FALSE")),
+              ("MCNarrow", "Narrow.cfg", dict(MAXDEPTH=2, MAXIFS=2, ELSIF="FALSE", UNLESS="TRUE", STMT="TRUE", RICH="FALSE", EMIT="FALSE", OBJECTS="FALSE")),
               ("MCBlocks", "Blocks.cfg", dict(MAXVARS=2, MAXDEPTH=2, MAXBLOCKS=2, EMIT="FALSE"))]
     for mod, cfg, consts in checks[:2 if tier == "quick" else 3]:
         r = C.run_tlc(work, mod, cfg, workers=8, timeout=3000, heap="16g", consts=consts)
